@@ -263,6 +263,56 @@ pub fn run(a: &Args, rep: &mut Report, has_alloc: bool) {
             other => rep.inconclusive.push(format!("harness: family {} is not a single well-formed item: {:?}", name, other.map(|x| x.1))),
         }
     }
+    // 3b. strict prefixes of items too large to exist: a definite array / map head declaring
+    // 2^32 .. 2^64-1 elements, below 0..3 open containers (definite and indefinite, arrays, maps,
+    // tags), followed by 0..6 one-byte items.  Every such input is a strict prefix of a
+    // well-formed item, so skip must return an error: no success, no panic (counter arithmetic)
+    {
+        let counts: [u64; 9] = [1 << 32, (1 << 62) + 1, (1 << 63) - 1, 1 << 63, (1 << 63) + 1, u64::MAX - 3, u64::MAX - 2, u64::MAX - 1, u64::MAX];
+        let opens: [&[u8]; 7] = [&[0x9f], &[0xbf, 0x00], &[0x82], &[0x83, 0x00], &[0xa1, 0x00], &[0xc1], &[0x9f, 0x00]];
+        let mut k = 0u64;
+        let mut n = 0u64;
+        for depth in 0..=3usize {
+            let combos = opens.len().pow(depth as u32);
+            for combo in 0..combos {
+                for major in [0x9bu8, 0xbb] {
+                    for &c in &counts {
+                        for fill in [0usize, 1, 2, 6] {
+                            k += 1;
+                            if !a.mine(k) {
+                                continue;
+                            }
+                            let mut input = Vec::new();
+                            let mut x = combo;
+                            for _ in 0..depth {
+                                input.extend_from_slice(opens[x % opens.len()]);
+                                x /= opens.len();
+                            }
+                            input.push(major);
+                            input.extend_from_slice(&c.to_be_bytes());
+                            input.extend(std::iter::repeat(0u8).take(fill));
+                            let input: Box<[u8]> = input.into_boxed_slice();
+                            rep.eval();
+                            n += 1;
+                            let r = mon::guarded(|| {
+                                let mut d = Decoder::new(&input);
+                                let r = d.skip();
+                                (r.is_ok(), d.position())
+                            });
+                            match r {
+                                Err(p) => fail(rep, "skip|panic", format!("skip on a strict prefix of a huge item panicked: {}", p.message), &input),
+                                Ok((true, pos)) => fail(rep, "skip|prefix-accepted", format!("skip returned Ok at position {} on a strict prefix of an item declaring {} elements", pos, c), &input),
+                                Ok((false, pos)) if pos > input.len() => fail(rep, "skip|position-beyond-input", format!("position {} > input length {}", pos, input.len()), &input),
+                                Ok((false, _)) => {}
+                            }
+                        }
+                    }
+                }
+            }
+        }
+        rep.enumerated(n);
+        rep.count_n("prefixes of items declaring 2^32 .. 2^64-1 elements below 0..3 open containers: error", n);
+    }
     // 4. containers with more than 2^32 items (thorough tier, one shard): the input is an anonymous
     // mapping of zero bytes behind a small header, every item is the one-byte unsigned integer 0;
     // the counters / stack entries of skip must not be narrower than the declared counts
